@@ -406,6 +406,30 @@ class C07(Prop):
                 ok = spelled_int(t) is not None and not (kind == "uint" and t.startswith("-")) and len(t) < 4000
         return dict(c, ctx=ctx) if ok else c
 
+    TERM_OF = {"int": "INT_LIT", "uint": "UINT_LIT", "float": "FLOAT_LIT", "bytes": "BYTES_LIT"}
+
+    def _lex_case(self, rng: random.Random, c: Dict[str, Any]) -> Dict[str, Any]:
+        kind = c["kind"]
+        if kind in ("str", "bytes"):
+            text = wrap(c)
+            term = "BYTES_LIT" if kind == "bytes" else ("MLSTRING_LIT" if len(QUOTE[c["q"]]) == 3 else "STRING_LIT")
+            valid = ref_value(c) is not None
+        else:
+            text = text_of(c["text"])
+            term = self.TERM_OF[kind]
+            if kind == "float":
+                valid = bool(FLOAT_RE.match(text))
+            else:
+                valid = spelled_int(text if kind == "int" else text[:-1]) is not None
+        suffix = ""
+        r = rng.random()
+        if r < 0.25:
+            suffix = "".join(chr(self._rand_cp(rng, False)) for _ in range(rng.choice([1, 1, 2, 3])))
+        elif r < 0.33:
+            term = rng.choice(sorted(set(self.TERM_OF.values()) | {"STRING_LIT", "MLSTRING_LIT"}))   # another terminal on this text
+            valid = False
+        return {"kind": "lex", "term": term, "text": cps(text + suffix), "valid": bool(valid and not suffix), "via": "re"}
+
     def search_cases(self, rng: random.Random) -> Iterable[Dict[str, Any]]:
         """lazy stream for the failing-input search: the numeric cases of a quick run, then literal cases
         through all three paths until the search's time budget ends"""
@@ -417,6 +441,7 @@ class C07(Prop):
             for via in ("fn", "I", "C"):
                 yield dict(c, via=via)
             yield self._with_ctx(rng, dict(c, via=rng.choice(["I", "C"])), 1.0)
+            yield self._lex_case(rng, c)
 
     def generate(self, rng: random.Random, tier: str) -> Iterable[Dict[str, Any]]:
         quick = tier == "quick"
@@ -511,12 +536,24 @@ class C07(Prop):
             seen_f.add(f)
             for via in ("I", "C"):
                 cases.append(self._with_ctx(rng, {"kind": "float", "text": cps(f), "via": via}, 0.2))
-        return cases
+        # the lexer step: the terminal's regular expression on the literal's text (and on the text followed by junk)
+        lex: List[Dict[str, Any]] = []
+        seen_l = set()
+        for c in cases:
+            if rng.random() >= (0.5 if quick else 0.34):
+                continue
+            lc = self._lex_case(rng, c)
+            k = (lc["term"], tuple(lc["text"]))
+            if k not in seen_l and len(lc["text"]) <= 400:
+                seen_l.add(k)
+                lex.append(lc)
+        return cases + lex
 
     # ---- implementation -------------------------------------------------------------------------
     def setup(self):
         import celpy
         self._lexer = None
+        self._term_re = None
 
     def _single_token(self, text: str) -> Optional[str]:
         """token type if lark's lexer cuts the whole text as one token, else None"""
@@ -531,7 +568,25 @@ class C07(Prop):
             return toks[0].type
         return None
 
+    def _terminal_re(self, name: str):
+        """the compiled regular expression of a terminal of the grammar the implementation really loads"""
+        if getattr(self, "_term_re", None) is None:
+            import celpy
+            if self._lexer is None:
+                self._lexer = celpy.CELParser().parser
+            self._term_re = {t.name: re.compile(t.pattern.to_regexp()) for t in self._lexer.terminals}
+        return self._term_re.get(name)
+
     def impl(self, c):
+        if c["kind"] == "lex":
+            rx = self._terminal_re(c["term"])
+            if rx is None:
+                return "no-terminal"
+            m = rx.match(text_of(c["text"]))
+            return f"some {m.end()}" if m else "none"
+        return self._impl(c)
+
+    def _impl(self, c):
         import lark
         from celpy import celtypes
         from celpy import evaluation
@@ -583,6 +638,10 @@ class C07(Prop):
         return self._single_token(text) in want
 
     def model_line(self, c):
+        if c["kind"] == "lex":
+            if any(x > 127 and chr(x).isdigit() for x in c["text"]):
+                return None                    # `\d` also accepts non-ASCII digits: not modelled
+            return f"lex {c['term']} {self._arg(c['text'])}"
         if not self._model_applicable(c):
             return None
         kind, via = c["kind"], c["via"]
@@ -599,6 +658,8 @@ class C07(Prop):
 
     def _model_expect(self, c, m):
         kind, via = c["kind"], c["via"]
+        if kind == "lex":
+            return m
         if via == "fn":
             return m
         if m.startswith("ok "):
@@ -626,6 +687,15 @@ class C07(Prop):
     def _oracle(self, c, out):
         kind, via = c["kind"], c["via"]
         ctx = c.get("ctx")
+        if kind == "lex":
+            text = text_of(c["text"])
+            whole = f"some {len(text)}"
+            if c.get("valid") and out != whole:
+                return (f"terminal {c['term']} on the literal {text[:80]!r}: the regular expression must match the whole "
+                        f"spelled literal ({len(text)} characters), re.match gave {out}")
+            if out != whole and self._single_token(text) == c["term"]:
+                return f"lark cut {text[:80]!r} as one {c['term']} token but the terminal's regular expression gives {out}"
+            return None
         if kind in ("str", "bytes"):
             exp = ref_value(c)
             if "value" in c:
@@ -679,6 +749,8 @@ class C07(Prop):
 
     def nontrivial(self, c, out):
         kind = c["kind"]
+        if kind == "lex":
+            return len(c["text"]) > 2 and out != "none"
         if kind in ("str", "bytes"):
             return any(x in (92, 34, 39, 10, 13) or x > 126 or x < 32 for x in c["body"])
         text = text_of(c["text"])
